@@ -3,7 +3,7 @@
    frame builders, hashes, length table and constants are generated from /repo. *)
 From J1939 Require Import Base CodecGlue Model21 Model22.
 From J1939.gen Require Import Codec Tp21Gen CaGen Tp22Gen.
-From J1939P Require Import CodecProofs Flat MpgProofs PoolProofs.
+From J1939P Require Import CodecProofs Flat TimeoutProofs MpgProofs PoolProofs Tp22Proofs ConserveProofs.
 
 (* T02.1: segmentation into 60-byte segments loses nothing, for EVERY payload *)
 Theorem C02_segments_reassemble : forall d,
@@ -54,3 +54,35 @@ Theorem C02_inbound_traffic_keeps_sessions : forall m now can_id data,
   skel (fnode22 (notify22 m now can_id data)) = skel m.
 Proof. exact inbound_neutral. Qed.
 Print Assumptions C02_inbound_traffic_keeps_sessions.
+
+(* T02.3 (responder, end of message): the end-of-message status delivers iff size, segment count and collected length
+   all agree with the announcement, and then exactly the collected bytes, once per matching subscriber, followed by
+   the end-of-message acknowledgement for a connection-mode transfer; the session is released *)
+Theorem C02_eom_status_delivers_exactly : forall prio sa dest data now m b,
+  eom_frame_ok data ->
+  let h := tp22_hash (tp22_cm_session_num data) sa dest in
+  tget (f_rcv m) h = Some b ->
+  q_size b = tp22_cm_message_size data -> q_nseg b = tp22_cm_segment_num data -> len (q_data b) = q_size b ->
+  fouts22 (process_tp_cm22 prio sa dest data now m) =
+    deliveries (base m) prio (q_pgn b) sa dest (q_data b) ++
+    (if dest =? addr_GLOBAL then []
+     else [OTx (tp22_eom_ack dest sa (tp22_cm_session_num data) (tp22_cm_message_size data) (tp22_cm_segment_num data) (q_pgn b))]) /\
+  f_rcv (fnode22 (process_tp_cm22 prio sa dest data now m)) = tdel (f_rcv m) h.
+Proof. exact eom_status_delivers_exactly. Qed.
+Print Assumptions C02_eom_status_delivers_exactly.
+
+(* "no other message is delivered anywhere": no FD data frame ever delivers, and a status frame without a matching
+   complete session delivers nothing (C06_fd_lost_segment_never_delivers) *)
+Theorem C02_data_frames_never_deliver : forall prio sa dest h0 frames m b0,
+  tget (f_rcv m) h0 = Some b0 ->
+  no_delivery (snd (feed_dt22 prio sa dest frames m)) /\
+  exists b', tget (f_rcv (fst (feed_dt22 prio sa dest frames m))) h0 = Some b' /\ q_size b' = q_size b0 /\
+             len (q_data b') <= len (q_data b0) + fold_right (fun f acc => len (payload22 (fst f)) + acc) 0 frames.
+Proof. intros prio sa dest h0. exact (feed_dt22_effect prio sa dest h0). Qed.
+Print Assumptions C02_data_frames_never_deliver.
+
+(* T02.6 (history form): the capacity invariant after ANY history — see C10_capacity_conserved_any_history *)
+Theorem C02_sessions_never_shared_any_history : forall maxp civ biv evs,
+  Forall hev_ok evs -> Inv (fold_left hstep evs (init_node22 maxp civ biv)).
+Proof. exact capacity_conserved_any_history. Qed.
+Print Assumptions C02_sessions_never_shared_any_history.
